@@ -3,6 +3,7 @@
 //! fn: pallas_addresses::Address::{from_bytes,to_vec,typeid,hrp,network} (bytes_to_address, parse_type_0..7, parse_type_14/15, parse_network)
 //! fn: pallas_addresses::Pointer::{new,to_vec,parse}, pallas_addresses::varuint::{read,write}
 //! stub: std::fmt::format -> empty String
+//! stub: <&[u8] as std::io::Read>::read_exact (what Cursor<&[u8]>::read_exact delegates to) -> model with the same Ok-path effect; reading past the end is a reported failure instead of an Err(io::Error) value (dropping io::Error unrolls a recursive dyn drop glue: no verdict in 400 s without the model). Only on the varuint / pointer round-trip harnesses.
 //! outside: hex and bech32 string legs (to_hex/from_hex, to_bech32/from_bech32, Display/FromStr: trusted dependencies `hex`, `bech32`; std UTF-8 validation on symbolic bytes gives no verdict)
 //! outside: Network::Other(x) built by hand with x >= 16 or x in {0,1} (not producible by Network::from / parse_network; to_header would overlap the type nibble, Other(0) re-parses as Testnet)
 //! outside: pointer components >= 2^14 inside whole-address round trips (the varuint codec itself is decided for every u64)
@@ -127,6 +128,7 @@ macro_rules! rt_ptr {
         #[kani::proof]
         #[kani::unwind($unw)]
         #[kani::stub(std::fmt::format, crate::stubs::fmt_format_stub)]
+        #[kani::stub(<&[u8] as std::io::Read>::read_exact, crate::stubs::slice_read_exact_model)]
         fn $name() {
             const T: u8 = $t;
             const K: u8 = $k;
@@ -487,6 +489,7 @@ fn varuint_body(x: u64) {
 #[kani::proof]
 #[kani::unwind(5)]
 #[kani::stub(std::fmt::format, crate::stubs::fmt_format_stub)]
+#[kani::stub(<&[u8] as std::io::Read>::read_exact, crate::stubs::slice_read_exact_model)]
 fn c18_q_varuint_lt_2p21() {
     let x: u64 = kani::any();
     kani::assume(x < 1 << 21);
@@ -499,6 +502,7 @@ fn c18_q_varuint_lt_2p21() {
 #[kani::proof]
 #[kani::unwind(12)]
 #[kani::stub(std::fmt::format, crate::stubs::fmt_format_stub)]
+#[kani::stub(<&[u8] as std::io::Read>::read_exact, crate::stubs::slice_read_exact_model)]
 fn c18_t_varuint_all_u64() {
     let x: u64 = kani::any();
     varuint_body(x);
@@ -510,6 +514,7 @@ fn c18_t_varuint_all_u64() {
 #[kani::proof]
 #[kani::unwind(4)]
 #[kani::stub(std::fmt::format, crate::stubs::fmt_format_stub)]
+#[kani::stub(<&[u8] as std::io::Read>::read_exact, crate::stubs::slice_read_exact_model)]
 fn c18_q_pointer_roundtrip() {
     let (s, x, c): (u64, u64, u64) = (kani::any(), kani::any(), kani::any());
     kani::assume(s < 1 << 14 && x < 1 << 14 && c < 1 << 14);
